@@ -142,6 +142,19 @@ func runC17(c *Ctx) {
 			}
 		}
 	}
+	// names of many labels: one defect (or none) in any one label, from the first to the ninth
+	good := []string{"aaa", "b-b", "0c0", "ddd", "eee", "fff", "g1g", "hhh", "iii"}
+	defects := []string{"", "e", "ee", "-ee", "ee-", "eE0", "e_e", "e..e"}
+	for nl := 3; nl <= 9; nl++ {
+		for pos := 0; pos < nl; pos++ {
+			for _, d := range defects {
+				ls := append([]string(nil), good[:nl]...)
+				ls[pos] = d
+				names = append(names, strings.Join(ls, "."))
+			}
+		}
+		names = append(names, strings.Join(good[:nl], "."))
+	}
 	// IP-looking names
 	ips := []string{"100.100.100.100", "192.168.100.200", "255.255.255.255", "127.100.100.101", "111.222.111.222",
 		"256.100.100.100", "999.999.999.999", "010.010.010.010", "100.100.100", "100.100.100.100.100", "100.100.100.abc",
